@@ -720,6 +720,8 @@ struct FGen {
       s.e = {lo, hi, arr_value(a)};
       s.n = {mpz_class(a.esz)};
     } else if (k < 95) { // array copy
+      if (!c.arr_assign)
+        return;
       std::vector<const ArrInfo *> cand;
       for (auto &o : arrays)
         if (o.name != a.name && o.is_bool == a.is_bool && o.esz == a.esz && o.n == a.n)
@@ -1278,6 +1280,105 @@ struct FGen {
     }
   }
 
+  // A terminating (mutual) recursion: a new entry block branches to a base case
+  // (p <= 0), to a recursive case (p > 0: call some function of the program,
+  // possibly this one, with p - 1) and to the generated body.
+  void add_recursion_template() {
+    if (!callees || callee_idx.empty() || f.exit.empty())
+      return;
+    std::string p, o;
+    for (auto &i : f.inputs) {
+      const VarDecl *d = f.var(i);
+      if (d && d->ty == Ty::INT && d->width == 32) {
+        p = i;
+        break;
+      }
+    }
+    for (auto &x : f.outputs) {
+      const VarDecl *d = f.var(x);
+      if (d && d->ty == Ty::INT && d->width == 32) {
+        o = x;
+        break;
+      }
+    }
+    if (p.empty() || o.empty() || ints_wr.empty())
+      return;
+    Stmt call;
+    if (!gen_call(call))
+      return;
+    // the first integer argument of the call becomes t = p - 1
+    std::string t;
+    for (auto &x : ints_wr)
+      if (x != o) {
+        t = x;
+        break;
+      }
+    if (t.empty())
+      return;
+    size_t nout = (size_t)call.n.at(0).get_ui();
+    bool patched = false;
+    for (size_t a = nout; a < call.v.size() && !patched; a++) {
+      const VarDecl *d = f.var(call.v[a]);
+      if (d && d->ty == Ty::INT && d->width == 32) {
+        call.v[a] = t;
+        patched = true;
+      }
+    }
+    if (!patched)
+      return;
+    for (size_t a = 0; a < nout; a++)
+      if (call.v[a] == t)
+        return; // the argument must not be an output of the same call
+    Block base, rec, ent;
+    ent.label = "r0";
+    base.label = "rbase";
+    rec.label = "rrec";
+    Stmt g1 = mk(Op::ASSUME);
+    g1.c.kind = LinCst::LEQ;
+    g1.c.e = LinExp::var(p); // p <= 0
+    base.stmts.push_back(g1);
+    Stmt a1 = mk(Op::ASSIGN);
+    a1.v = {o};
+    a1.e = {r.coin() ? LinExp(constant()) : LinExp::var(p)};
+    base.stmts.push_back(a1);
+    base.succs = {f.exit};
+    Stmt g2 = mk(Op::ASSUME);
+    g2.c.kind = LinCst::LEQ;
+    g2.c.e = LinExp::var(p, -1); // 1 - p <= 0
+    g2.c.e.cst = 1;
+    rec.stmts.push_back(g2);
+    Stmt dec = mk(Op::BINOP);
+    dec.k = "sub";
+    dec.v = {t, p};
+    dec.n = {mpz_class(1)};
+    rec.stmts.push_back(dec);
+    rec.stmts.push_back(call);
+    // the result depends on the result of the recursive call
+    std::string res;
+    for (size_t a = 0; a < nout; a++) {
+      const VarDecl *d = f.var(call.v[a]);
+      if (d && d->ty == Ty::INT && d->width == 32)
+        res = call.v[a];
+    }
+    if (!res.empty()) {
+      Stmt acc = mk(Op::BINOP);
+      acc.k = "add";
+      acc.v = {o, res};
+      if (r.coin())
+        acc.v.push_back(p);
+      else
+        acc.n = {mpz_class((long)r.range(0, 3))};
+      rec.stmts.push_back(acc);
+    }
+    rec.succs = {f.exit};
+    ent.succs = {base.label, rec.label};
+    if (r.chance(1, 3))
+      ent.succs.push_back(f.blocks[0].label);
+    f.blocks.insert(f.blocks.begin(), ent);
+    f.blocks.push_back(base);
+    f.blocks.push_back(rec);
+  }
+
   void generate_body() {
     build_shape();
     bool tmpl_shape = f.blocks.size() >= 4 && f.blocks[1].succs.size() == 2 &&
@@ -1294,6 +1395,8 @@ struct FGen {
         add_template_code();
     }
     place_asserts();
+    if (c.recursion && f.name != "main" && r.chance(1, 2))
+      add_recursion_template();
     if (c.profile == GenConfig::REGION)
       add_region_prologue();
     if (c.profile == GenConfig::ARRAY) {
